@@ -1846,6 +1846,10 @@ fn run_avg_inner(c: &AvgCase, st: &mut RunStats) -> Verdict {
         }
         return Verdict::Pass;
     }
+    // every worker thread of the tool gets a reopened reader: the handles must be independent cursors
+    if let Err(m) = reopen_history_check(&big, crate::rng::hash_bytes(bed_text.as_bytes()) ^ c.nthreads as u64) {
+        return viol("reopened-handle-not-independent", m);
+    }
     // the tool, -t 1 and -t N
     let run_tool = |threads: u8, outp: &Path| -> Result<String, Verdict> {
         let mut argv = vec![
